@@ -350,22 +350,31 @@ Lemma anc_effect fl st :
   d_fs (fst (doer_exec fl st CCreateRootAncestors)) = d_fs st /\ d_open (fst (doer_exec fl st CCreateRootAncestors)) = d_open st.
 Proof. cbn [doer_exec]. destruct (d_anc st); cbn; auto. Qed.
 
-Theorem mirror_theorem cfg S D ans bits ls ld ft :
-  valid_listing S ls -> valid_listing (d_fs D) ld ->
-  wf_fs S -> src_times_set S -> links_roundtrip S -> d_open D = None ->
+(* What a successful, skip-free, non-dry run is: the plan of the two side listings, executed completely
+   and without any error, from a state that differs from the initial one at most by the created ancestors. *)
+Lemma sync_success_shape cfg S D ans bits ls ld ft :
+  valid_listing S ls -> valid_listing (d_fs D) ld -> d_open D = None ->
   let r := sync_one cfg S D ans bits ls ld ft in
   r_ok r = true -> r_skipped r = [] -> r_root_skipped r = false -> cf_dry cfg = false ->
-  no_through (d_events (r_dest r)) -> cf_fl cfg = dest_fl ->
-  mirror now_z incl normalize (cf_diff cfg) dest_fl S (d_fs D) (d_fs (r_dest r)).
+  exists stP,
+    let acts := plan_spec (cf_diff cfg) (beh_eqb (b_same (cf_b cfg)) BSkip) (side_listing S ls) (side_listing (d_fs D) ld) in
+    fget S [] <> None /\
+    d_fs stP = d_fs D /\ d_open stP = None /\
+    (d_events stP = d_events D \/ d_events stP = d_events D ++ [CreatedAncestors]) /\
+    r_dest r = exec_all (cf_fl cfg) (exec_all (cf_fl cfg) stP (map delete_cmd (a_delete acts)))
+                 (dest_cmds (flat_map (copy_steps chunker S) (a_copy acts))) /\
+    all_ok (cf_fl cfg) stP (map delete_cmd (a_delete acts)) /\
+    all_ok (cf_fl cfg) (exec_all (cf_fl cfg) stP (map delete_cmd (a_delete acts)))
+       (dest_cmds (flat_map (copy_steps chunker S) (a_copy acts))).
 Proof.
-  intros HvS HvD Hwf Hts Hlinks Hopen. cbv zeta. unfold Sync.sync_one.
+  intros HvS HvD Hopen. cbv zeta. unfold Sync.sync_one.
   destruct (side_listing_spec S ls HvS) as (HndS & HeS & HkS).
   destruct (side_listing_spec (d_fs D) ld HvD) as (HndD & HeD & HkD).
   unfold Mirror.side_listing in HndS, HeS, HkS, HndD, HeD, HkD.
   destruct (fget S []) as [sn|] eqn:ErS; [|cbn; discriminate].
   match goal with |- context [match ?g with inl _ => _ | inr _ => _ end] => destruct g as [[ans1 np1]|[[|] np]] end;
     try (cbn; discriminate).
-  intros Hok Hsk Hrs Hdry Hnt Hflv. revert Hok Hsk Hrs Hnt. rewrite Hdry.
+  intros Hok Hsk Hrs Hdry. revert Hok Hsk Hrs. rewrite Hdry.
   set (Ls := ([], entry_of sn) :: match sn with NFolder => ls | _ => [] end) in *.
   set (Ld := match fget (d_fs D) [] with Some n => ([], entry_of n) :: match n with NFolder => ld | _ => [] end | None => [] end) in *.
   (* the projections of the arrival sequence are the two side listings *)
@@ -387,7 +396,7 @@ Proof.
   set (r0 := mkR D _ _ [] false 0 0 None).
   set (r1 := run_steps (cf_fl cfg) ft r0 pre).
   set (r2 := run_steps (cf_fl cfg) ft r1 (exec_steps chunker S acts')).
-  intros Hok Hsk _ Hnt.
+  intros Hok Hsk _.
   assert (acts' = acts) by (eapply confirm_no_skip; eauto). subst acts'.
   assert (Herrs : rs_errs r2 = [] /\ rs_srcfail r2 = false).
   { revert Hok. destruct (rs_errs r2); [|discriminate]. intros Hok. split; auto.
@@ -409,20 +418,43 @@ Proof.
   change (run_steps (cf_fl cfg) ft r1 (exec_steps chunker S acts)) with r2 in X2.
   change (run_steps (cf_fl cfg) ft r0 pre) with r1 in X1. cbn [rs_d] in X1.
   (* the state after the (possible) CreateRootAncestors *)
-  assert (Hst1 : d_fs (rs_d r1) = d_fs D /\ d_open (rs_d r1) = None).
+  assert (Hst1 : d_fs (rs_d r1) = d_fs D /\ d_open (rs_d r1) = None /\
+                 (d_events (rs_d r1) = d_events D \/ d_events (rs_d r1) = d_events D ++ [CreatedAncestors])).
   { rewrite X1. unfold pre. destruct (option_map entry_of (fget (d_fs D) [])); cbn [dest_cmds flat_map app exec_all]; [auto|].
     change (rs_d r0) with D.
-    destruct (anc_effect (cf_fl cfg) D) as [F1 F2]. rewrite F1, F2. auto. }
-  destruct Hst1 as [Hfs1 Hop1].
+    destruct (anc_effect (cf_fl cfg) D) as [F1 F2]. rewrite F1, F2. split; [reflexivity|]. split; [exact Hopen|].
+    cbn [doer_exec]. destruct (d_anc D); cbn; auto. }
+  destruct Hst1 as (Hfs1 & Hop1 & Hev1).
   (* split the execution phase *)
   unfold exec_steps in X2, A2. rewrite dest_cmds_app, dest_cmds_map_delete in X2, A2.
   rewrite exec_all_app in X2. apply all_ok_app in A2 as [Ad Ac].
-  set (stD := exec_all (cf_fl cfg) (rs_d r1) (map delete_cmd (a_delete acts))) in *.
+  exists (rs_d r1). cbv zeta. unfold Mirror.side_listing. rewrite ErS. fold Ls Ld ss acts.
+  split; [congruence|]. split; [exact Hfs1|]. split; [exact Hop1|]. split; [exact Hev1|].
+  split; [exact X2|]. split; [exact Ad|exact Ac].
+Qed.
+
+Theorem mirror_theorem cfg S D ans bits ls ld ft :
+  valid_listing S ls -> valid_listing (d_fs D) ld ->
+  wf_fs S -> src_times_set S -> links_roundtrip S -> d_open D = None ->
+  let r := sync_one cfg S D ans bits ls ld ft in
+  r_ok r = true -> r_skipped r = [] -> r_root_skipped r = false -> cf_dry cfg = false ->
+  no_through (d_events (r_dest r)) -> cf_fl cfg = dest_fl ->
+  mirror now_z incl normalize (cf_diff cfg) dest_fl S (d_fs D) (d_fs (r_dest r)).
+Proof.
+  intros HvS HvD Hwf Hts Hlinks Hopen. cbv zeta. intros Hok Hsk Hrs Hdry Hnt Hflv.
+  destruct (sync_success_shape cfg S D ans bits ls ld ft HvS HvD Hopen Hok Hsk Hrs Hdry)
+    as (stP & Hroot & Hfs1 & Hop1 & _ & X2 & Ad & Ac).
+  destruct (side_listing_spec S ls HvS) as (HndS & HeS & HkS).
+  destruct (side_listing_spec (d_fs D) ld HvD) as (HndD & HeD & HkD).
+  set (Ls := side_listing S ls) in *. set (Ld := side_listing (d_fs D) ld) in *.
+  set (ss := beh_eqb (b_same (cf_b cfg)) BSkip) in *.
+  set (acts := plan_spec (cf_diff cfg) ss Ls Ld) in *.
+  set (stD := exec_all (cf_fl cfg) stP (map delete_cmd (a_delete acts))) in *.
   rewrite X2 in Hnt.
   assert (HntD : no_through (d_events stD)) by (eapply no_through_prefix; eauto).
   assert (NdD : NoDup (map fst (a_delete acts))) by (apply nodup_delete_keys; auto).
   assert (NdC : NoDup (map fst (a_copy acts))) by (apply nodup_copy_keys; auto).
-  destruct (deletes_effect (cf_fl cfg) (a_delete acts) (rs_d r1) NdD Ad HntD) as (D1 & D2 & D3).
+  destruct (deletes_effect (cf_fl cfg) (a_delete acts) stP NdD Ad HntD) as (D1 & D2 & D3).
   fold stD in D1, D2, D3.
   assert (Hfl : forall p e r, In (p, (e, r)) (a_copy acts) -> file_listed S p e).
   { intros p e r Hin. apply in_copy_iff in Hin as [Hin _]. destruct (HeS _ _ Hin) as (n & En & ->).
@@ -432,7 +464,6 @@ Proof.
   rewrite X2.
   rewrite Hflv in *.
   apply (mirror_from_effects (cf_diff cfg) ss S (d_fs D) _ Ls Ld); auto.
-  - congruence.
   - intros p Hnc Hd. rewrite C2 by assumption. apply D1. assumption.
   - intros p Hnc Hnd. rewrite C2 by assumption. rewrite D2 by assumption. rewrite Hfs1. reflexivity.
 Qed.
